@@ -52,7 +52,7 @@ class RunDomain(DefaultDomain):
         return "F"
 
     def load_attr(self, chain, st, fr):
-        if chain[0] == "<value>":
+        if chain[0] == "<value>" or not all(isinstance(c, str) for c in chain):
             return None
         d = ".".join(chain)
         if d == "self.exception_caught":
@@ -105,8 +105,21 @@ class RunDomain(DefaultDomain):
     def unknown_call(self, call, st):
         return [val(TOP, st), exc(("framework", "call " + norm(call.func)[:40]), st)]
 
+    @staticmethod
+    def _is_cleanups_expr(e, st, fr):
+        """self.case._cleanups, or a local that holds that very list"""
+        if dotted(e) == "self.case._cleanups":
+            return True
+        return isinstance(e, ast.Name) and st.get(fr.local(e.id), None) == ("cleanups",)
+
+    def _is_cleanups_pop(self, call, st, fr):
+        f = call.func
+        return isinstance(f, ast.Attribute) and f.attr == "pop" and self._is_cleanups_expr(f.value, st, fr)
+
     def refine(self, interp, test, st, fr, truth):
-        if norm(test) == "self.case._cleanups":
+        if self._is_cleanups_expr(test, st, fr):
+            return st.set("cleanups.known", "nonempty" if truth else "empty")
+        if isinstance(test, ast.Call) and dotted(test.func) == "len" and len(test.args) == 1 and self._is_cleanups_expr(test.args[0], st, fr):
             return st.set("cleanups.known", "nonempty" if truth else "empty")
         return st
 
@@ -133,7 +146,11 @@ class RunDomain(DefaultDomain):
         if isinstance(func, ast.Name) and (func.id.endswith(("Error", "Exception")) or func.id in ("object", "set", "list", "dict", "tuple", "frozenset")):
             return self._with_args(interp, call, st, fr, lambda s: [val(NOTNONE, s)])
         if d == "self.case.onException":
-            return self._with_args(interp, call, st, fr, lambda s: [val(NONE, s.note(("onException", call.lineno))), exc(("framework", "addOnException handler raised"), s)])
+            def on_exc(s):
+                if s.get("ev.outcomes", 0) > 0:
+                    s = s.set("ev.onexc_after_outcome", 1)
+                return [val(NONE, s.note(("onException", call.lineno))), exc(("framework", "addOnException handler raised"), s)]
+            return self._with_args(interp, call, st, fr, on_exc)
         if d in ("self.case.getDetails", "self.case.defaultTestResult"):
             return [val(NOTNONE, st)]
         if d == "self._exceptions.append":
@@ -147,12 +164,12 @@ class RunDomain(DefaultDomain):
             if cur in (EMPTY, TOP):
                 out.append(exc(("framework", "pop from empty list"), st))
             return out
-        if d == "self.case._cleanups.pop":
+        if self._is_cleanups_pop(call, st, fr):
             popped = val(("tuple", ("user", "cleanup"), TOP, TOP), st.set("cleanups.known", "?"))
             if st.get("cleanups.known", "?") == "nonempty":
                 # the enclosing `while self.case._cleanups:` test has just established non-emptiness
                 return [popped]
-            return [popped, exc(("framework", "IndexError: pop from empty list"), st)]
+            return [popped, exc(("framework", "IndexError: pop from empty list"), st.set("cleanups.known", "empty"))]
         if d == "ExtendedToOriginalDecorator":
             return self._with_args(interp, call, st, fr, lambda s: [val(NOTNONE, s)])
         # calls on self: inline through the receiver's MRO
@@ -226,6 +243,9 @@ class RunDomain(DefaultDomain):
 
     def _user_call(self, v, call, st):
         stage = v[1]
+        st = st.set("ev.last_stage", stage)
+        if st.get("ev.outcomes", 0) > 0:
+            st = st.set("ev.user_after_outcome", 1)
         ok = st.note(("user:" + stage, call.lineno))
         bad = st.note(("user-raise:" + stage, call.lineno))
         if self.record_stages:
@@ -243,6 +263,8 @@ class RunDomain(DefaultDomain):
 
     def _inline_call(self, interp, f, call, st, fr, skip_self):
         """Bind call arguments to f's parameters and inline it."""
+        if getattr(f, "name", "") == "_run_cleanups":
+            st = st.set("ev.drained", 1)
         out = []
         pos = []
         star = None
@@ -755,7 +777,7 @@ class DrainDomain(RunDomain):
         super().__init__(classes, receiver, record_stages=False)
 
     def call(self, interp, call, st, fr):
-        if dotted(call.func) == "self.case._cleanups.pop":
+        if self._is_cleanups_pop(call, st, fr):
             out = []
             for r in super().call(interp, call, st, fr):
                 if r.kind == "val":
@@ -771,7 +793,12 @@ class DrainDomain(RunDomain):
         if v[1] == "cleanup":
             if not st.get("ev.pending", 0):
                 st = st.set("ev.twice", 1)
-            st = st.set("ev.pending", 0)
+            # a cleanup may register further cleanups: what was known about the list is stale
+            st = st.set("ev.pending", 0).set("cleanups.known", "?")
+            out = []
+            for r in super()._user_call(v, call, st):
+                out.append(Result(r.kind, r.value, r.state.set("ev.cleanup_failed", 1)) if r.kind == "exc" else r)
+            return out
         return super()._user_call(v, call, st)
 
 
@@ -794,10 +821,17 @@ def drain_verdicts(ctx, receiver_cls):
         if framework:
             continue
         kind = "returns" if r.kind == "val" else ("a cleanup's exception escapes" if r.value == USER_EXC else f"raises {r.value!r}")
-        sigs.setdefault((kind, s.get("ev.pending", 0), s.get("ev.dropped", 0), s.get("ev.twice", 0), min(s.get("ev.pops", 0), 1)), r)
+        known = s.get("cleanups.known", "?")
+        failed = s.get("ev.cleanup_failed", 0)
+        verdict = "-" if r.kind != "val" else ("sentinel" if r.value == SENT else "no sentinel")
+        sigs.setdefault((kind, s.get("ev.pending", 0), s.get("ev.dropped", 0), s.get("ev.twice", 0), min(s.get("ev.pops", 0), 1), known, failed, verdict), r)
     out = []
-    for (kind, pending, dropped, twice, pops), r in sorted(sigs.items(), key=repr):
+    for (kind, pending, dropped, twice, pops, known, failed, verdict), r in sorted(sigs.items(), key=repr):
         problems = []
+        if kind == "returns" and known != "empty":
+            problems.append("the drain can end without having just seen the live cleanup list empty: cleanups still registered (or registered by a cleanup) never run")
+        if kind == "returns" and (verdict == "sentinel") != bool(failed):
+            problems.append("the sentinel is returned although no cleanup raised" if not failed else "a cleanup raised but the drain does not return the sentinel: the run would be reported as a success")
         if kind != "returns":
             problems.append("an exception raised by a cleanup (KeyboardInterrupt included) leaves the drain loop: the cleanups still registered never run")
         if pending:
@@ -807,5 +841,6 @@ def drain_verdicts(ctx, receiver_cls):
         if twice:
             problems.append("a cleanup is invoked without having been popped (invoked twice)")
         label = f"drain exit: {kind}" + (", cleanups popped" if pops else ", nothing popped") + ("" if not problems else " [" + "; ".join(p.split(':')[0] for p in problems) + "]")
-        out.append((label, f"drain {kind} pending={pending} dropped={dropped} twice={twice} pops={pops}", not problems, "; ".join(problems), r))
+        label += f" (list seen {known}; cleanup raised: {'yes' if failed else 'no'}; returns {verdict})"
+        out.append((label, f"drain {kind} pending={pending} dropped={dropped} twice={twice} pops={pops} known={known} failed={failed} verdict={verdict}", not problems, "; ".join(problems), r))
     return out
